@@ -26,7 +26,10 @@ ALSO = {'C02-2': ['C07'], 'C03-1': ['C14'], 'C03-2': ['C11'], 'C05-2': ['C18'], 
         # round 2: changes that are (also) caught by the check of a neighbouring property
         'C02-4': ['C12'], 'C03-3': ['C09'], 'C03-4': ['C08'], 'C04-3': ['C12'], 'C04-4': ['C01'], 'C06-3': ['C11'],
         'C06-4': ['C12'], 'C06-5': ['C07'], 'C09-5': ['C03'], 'C10-3': ['C06'], 'C10-4': ['C06'], 'C11-5': ['C03'],
-        'C12-3': ['C07'], 'C12-4': ['C06'], 'C13-5': ['C18'], 'C14-5': ['C03'], 'C16-5': ['C02']}
+        'C12-3': ['C07'], 'C12-4': ['C06'], 'C13-5': ['C18'], 'C14-5': ['C03'], 'C16-5': ['C02'],
+        # rounds 4 and 5
+        'C10-9': ['C07'], 'C06-10': ['C03'], 'C10-10': ['C12'], 'C16-12': ['C04', 'C01'], 'C04-12': ['C01'],
+        'C05-12': ['C01'], 'C15-11': ['C14']}
 MUTANT_CHECKS = {'c06-': ['C06'], 'd20-': ['C04']}
 
 
